@@ -52,6 +52,10 @@ func (u *Unit) execCall(fc *frameCtx, st *State, pc *Term, t *ssa.Call) {
 			u.safety("nil", "invoke-"+call.Method.Name(), pc, c.Neq(recv.T, c.Nil()), "method call on nil interface", t.Pos())
 		}
 		name := methodKey(call.Method)
+		if res, ok := u.clientCall(fc, name, call.Method.Type().(*types.Signature), args, st, pc, t.Pos()); ok {
+			setResult(res)
+			return
+		}
 		con := u.e.contracts[name]
 		setResult(u.callByContractOrDefault(fc, name, con, call.Method.Type().(*types.Signature), true, call.Method.Pkg(), args, st, pc, t.Pos()))
 		return
@@ -251,6 +255,12 @@ func (u *Unit) callByContractOrDefault(fc *frameCtx, name string, con *Contract,
 			fr := u.frameOf(con, env)
 			u.checkCalleeFrame(fc, pc, fr, name, pos)
 			u.havoc(st, pc, fr)
+			if con.Logs || con.ModAny {
+				if fc != nil && !fc.spec {
+					u.checkLogAllowed(fc, pc, name, pos)
+				}
+				u.logHavoc(st, pc)
+			}
 		}
 		res = u.freshResults(shortName(name), sig, st, pc)
 	}
